@@ -27,9 +27,129 @@ def llist_jobs(tier):
     return J
 
 
+SLIST_N3_QUICK = [(1, 1, 1), (4, 4, 4), (1, 2, 3), (3, 2, 1), (2, 4, 1), (1, 4, 1), (4, 1, 4), (2, 2, 3), (3, 1, 2),
+                  (1, 3, 3), (4, 2, 2), (2, 1, 4)]
+
+
+def slist_vectors(tier, seed):
+    import itertools
+    import random
+    V = [()]
+    for n in (1, 2):
+        V += list(itertools.product((1, 2, 3, 4), repeat=n))
+    if tier == "quick":
+        V += SLIST_N3_QUICK
+    else:
+        V += list(itertools.product((1, 2, 3, 4), repeat=3))
+        rnd = random.Random(seed)
+        V += sorted(set(tuple(rnd.randint(1, 4) for _ in range(4)) for _ in range(24)))
+    return V
+
+
+def slist_jobs(tier, seed):
+    J = []
+    real = LIB
+    for v in slist_vectors(tier, seed):
+        n = len(v)
+        tag = "n%d_%s" % (n, "".join(str(x) for x in v) or "e")
+        base = ["-DN=%d" % n, "-DLVS=%s" % (",".join(str(x) for x in v) or "1")]
+        shape = ("arbitrary valid skip list: %d nodes with levels %s (list levels 4), symbolic keys k0<=k1<=.. in 0..9, "
+                 "destructor set or NULL" % (n, list(v)))
+        common = dict(harness="slist_step.c", real=real, unwind=10, unwindset=["vp_realloc.0:41"], leak=True)
+        for lvl in (1, 2, 3, 4):
+            J.append(dict(common, name="slist_insert_%s_new%d" % (tag, lvl),
+                          defines=base + ["-DGRP=0", "-DOP=0", "-DNEWLV=%d" % lvl],
+                          witnesses=["end"] + (["multi-level insert"] if lvl > 1 else []),
+                          bound=shape + "; ONE insert of any key 0..9 whose coin flips give level %d" % lvl))
+        for lvl in ((2,) if tier == "quick" else (1, 2, 3, 4)):
+            J.append(dict(common, name="slist_insert_oom_%s_new%d" % (tag, lvl),
+                          defines=base + ["-DGRP=0", "-DOP=7", "-DNEWLV=%d" % lvl],
+                          bound=shape + "; ONE insert (level %d) in which the 1st, 2nd or 3rd allocation fails" % lvl))
+        if n > 0:
+            J.append(dict(common, name="slist_nodeops_%s" % tag, defines=base + ["-DGRP=1"],
+                          bound=shape + "; ONE of claim / node_destroy / reinsert-after-any-key-change on each node "
+                                        "(each from a fresh state)"))
+        J.append(dict(common, name="slist_listops_%s" % tag, defines=base + ["-DGRP=2"],
+                      witnesses=["end"] + (["find among duplicates"] if n >= 2 else []),
+                      bound=shape + "; ONE of find(any key) / observers / destroy / replace_destructor (each from a "
+                                    "fresh state)"))
+        if n == 0:
+            J.append(dict(common, name="slist_misc", defines=base + ["-DGRP=3"], witnesses=["end", "flips from cache"],
+                          bound="rejected arguments; coin-flip/level choice on ARBITRARY rand_bits (0..64) and rand_data; "
+                                "create() anchor: the created list satisfies the invariant"))
+    return J
+
+
+def rgs(n):
+    """restricted growth strings of length n = set partitions of n keys (block of key k)"""
+    out = [[]]
+    for _ in range(n):
+        out = [r + [b] for r in out for b in range((max(r) + 1 if r else 0) + 1)]
+    return out
+
+
+def htable_ords(part, e):
+    """order bit-masks that give distinct states: bit k only matters if an earlier stored key shares k's block"""
+    free = [k for k in range(e) if part[k] in part[:k]]
+    out = []
+    for m in range(1 << len(free)):
+        v = 0
+        for i, k in enumerate(free):
+            if (m >> i) & 1:
+                v |= 1 << k
+        out.append(v)
+    return out
+
+
+HT_OPS = {0: "insert_new", 1: "insert_replace", 2: "observe", 3: "remove", 4: "expand", 5: "all_buckets", 6: "destroy",
+          7: "insert_oom", 8: "expand_oom", 9: "rejects"}
+HT_US = ["check_table.1:8", "ares_htable_find.0:8", "ares_llist_clear.0:8", "ares_htable_all_buckets.0:8",
+         "ares_htable_expand.1:8", "ares_htable_expand.0:8"]
+
+
+def htable_jobs(tier):
+    J = []
+    emax = 3 if tier == "quick" else 4
+    for e in range(0, emax + 1):
+        stored = rgs(e)                 # partitions of the stored keys; the absent key gets a block of its own
+        withnew = rgs(e + 1)            # partitions of stored keys + the key that is inserted / looked up
+        for op in sorted(HT_OPS):
+            if op == 9 and e != 2:
+                continue
+            if op == 1 and e == 0:
+                continue
+            parts = withnew if op in (0, 3, 7) else [r + [(max(r) + 1 if r else 0)] for r in stored]
+            for part in parts:
+                ords = [None]
+                if op in (4, 8) and e >= 3:
+                    ords = htable_ords(part, e)
+                for o in ords:
+                    tag = "e%d_p%s%s" % (e, "".join(str(b) for b in part), "" if o is None else "_o%d" % o)
+                    wit = ["end"]
+                    if op == 3 and e > 0:
+                        wit.append("removed")
+                    if op == 7:
+                        wit.append("insert failed")
+                    if op == 8:
+                        wit.append("expand failed")
+                    J.append(dict(
+                        name="htable_%s_%s" % (HT_OPS[op], tag), harness="htable_step.c",
+                        defines=["-DOP=%d" % op, "-DE=%d" % e, "-DPART=%s" % ",".join(str(b) for b in part)] +
+                                ([] if o is None else ["-DORD=%d" % o]),
+                        real=LIB, unwind=34, unwindset=HT_US, witnesses=wit,
+                        bound="arbitrary valid 16-slot ares_htable with %d entries whose hash (an arbitrary function of the "
+                              "key, here the collision pattern %s = slot-sharing of keys 0..%d, key %d absent) puts them in "
+                              "slots; every order inside a slot%s; with/without an emptied slot list; ONE %s%s" %
+                              (e, part, e - 1, e, "" if o is None else " (order mask %d)" % o, HT_OPS[op],
+                               " for every combination of the post-doubling hash bit" if op == 4 else "")))
+    return J
+
+
 def jobs(tier, seed):
     J = []
     J += llist_jobs(tier)
+    J += htable_jobs(tier)
+    J += slist_jobs(tier, seed)
     for ms in ((1, 2) if tier == "quick" else (1, 2, 4)):
         for ac in (0, 4, 8):
             for op, opname in enumerate(ARRAY_OPS):
